@@ -41,7 +41,12 @@ func c16runes(args []string) int {
 		if cp >= 0xd800 && cp <= 0xdfff && cp%2 == 1 {
 			text = string([]byte{'a', 0xed, byte(0xa0 | (cp>>6)&0x1f), byte(0x80 | cp&0x3f), 'b'})
 		}
-		switch cp % 4 {
+		switch cp % 6 {
+		case 4:
+			// nothing but parts: the message is the last thing on the line, and ends in spaces
+			l.Info().Msg(text + []string{" ", "  ", " \t "}[cp/6%3])
+		case 5:
+			l.Info().Msg([]string{" ", "   ", text + " "}[cp/6%3])
 		case 0:
 			l.Info().Str("k", text).Msg("m")
 		case 1:
